@@ -681,3 +681,15 @@ package cache
 //@   assert at call middleware/cache.withoutClientSubnet#1: arg0 == lastret("(*github.com/miekg/dns.Msg).IsEdns0").Option && lastret("(*github.com/miekg/dns.Msg).IsEdns0") != nil
 //@   assert at call (*middleware/cache.Cache).prefetchExchange#1: arg2 == prefetchReq && prefetchReq == lastret("(*github.com/miekg/dns.Msg).Copy") && (lastret("(*github.com/miekg/dns.Msg).IsEdns0") != nil ==> calls("middleware/cache.withoutClientSubnet") == 1)
 //@   assert at call (*middleware/cache.Store).ReplaceIfCurrent#1: arg1 == req.Key && arg2 == req.Entry && arg3 == lastret("(*middleware/cache.Cache).prefetchExchange") && lastret("(*middleware/cache.Cache).prefetchExchange", 1) == nil && (!lastret("internal/ecs.ReadResponseScope", 1) || lastret("(*middleware/cache.CacheEntry).scoped#1"))
+//@
+//@ # ---- C01: merging an alias target's response into the client's reply. The combined reply keeps AD only if the
+//@ # target leg was authenticated too - WHATEVER the target leg contributed (answer records, or only an authority
+//@ # section: an NXDOMAIN/NODATA from an unsigned zone under a signed CNAME must not come back with AD=1)
+//@ func searchAdditionalAnswer
+//@   abstract
+//@   nosafety all pre
+//@   loop 1 invariant !old(res.AuthenticatedData) ==> !msg.AuthenticatedData
+//@   loop 2 invariant !old(res.AuthenticatedData) ==> !msg.AuthenticatedData
+//@   loop 3 invariant !old(res.AuthenticatedData) ==> !msg.AuthenticatedData
+//@   assert at return#1: !old(res.AuthenticatedData) ==> !msg.AuthenticatedData
+//@   assert at store dns.MsgHdr.AuthenticatedData#1: !value && !res.AuthenticatedData && calls("append") == 0
